@@ -169,7 +169,15 @@ func NewEnv(c Cfg, lua string, storeCfg config.Storage) (*Env, error) {
 	} else {
 		e.Host = extension.NewHost()
 	}
-	switch c.Store {
+	// Store: "mem" | "file", optionally ":<n>" = storage mailbox message cap
+	kind := c.Store
+	if i := strings.IndexByte(kind, ':'); i >= 0 {
+		if n, err := strconv.Atoi(kind[i+1:]); err == nil && storeCfg.MailboxMsgCap == 0 {
+			storeCfg.MailboxMsgCap = n
+		}
+		kind = kind[:i]
+	}
+	switch kind {
 	case "file":
 		dir, err := os.MkdirTemp(os.Getenv("VERIF_WORKDIR"), "fstore")
 		if err != nil {
